@@ -373,7 +373,10 @@ def r_anova_func(ctx, rng, fam):
     nm = int(rng.integers(2, 5))
     m = int(rng.integers(5, 40))
     X = rng.uniform(-1, 1, size=(m, d))
-    for kind in ('zero', 'constant', 'repeated', 'random'):
+    a, b = [(-1., 1.), (0., 4.), (-3., -1.)][int(rng.integers(3))]
+    X = a + (X + 1) * (b - a) / 2
+    for kind in ('zero', 'constant', 'repeated', 'random', 'repeated-centre',
+            'centre-hyperplane', 'repeated-corner', 'two-values'):
         y = {'zero': np.zeros(m), 'constant': np.full(m, 4.)}.get(kind)
         Xk = X.copy()
         if y is None:
@@ -381,7 +384,18 @@ def r_anova_func(ctx, rng, fam):
         if kind == 'repeated':
             Xk[:] = X[0]
             y = np.full(m, y[0])
-        Z = teneva.anova_func(Xk, y, nm, -1., 1., 1e-7, 1e-8)
+        elif kind == 'repeated-centre':
+            Xk[:] = (a + b) / 2
+            y = np.full(m, y[0])
+        elif kind == 'centre-hyperplane':
+            Xk[:, int(rng.integers(d))] = (a + b) / 2
+        elif kind == 'repeated-corner':
+            Xk[:] = [a if rng.random() < 0.5 else b for _ in range(d)]
+            y = np.full(m, y[0])
+        elif kind == 'two-values':
+            Xk[:] = np.where(rng.random((m, d)) < 0.5, X[0], X[1])
+        lamb = [1e-7, 1e-7, 1e-3, 1.][int(rng.integers(4))]
+        Z = teneva.anova_func(Xk, y, nm, a, b, lamb, 1e-8)
         wf(ctx, 'anova_func', Z, [nm] * d, f'anova_func[{kind} data]')
         ctx.nontrivial(['anova_func', kind, d, nm])
 
